@@ -10,6 +10,7 @@ pub mod c12;
 pub mod c15;
 pub mod c16;
 pub mod c17;
+pub mod c20;
 
 pub fn eval(op: &str, args: &[&str]) -> Option<String> {
     // "m." ops are the same implementation operation, compared with the implementation-mirroring model
@@ -28,6 +29,7 @@ pub fn eval(op: &str, args: &[&str]) -> Option<String> {
         "c15" => c15::eval(op, args),
         "c16" => c16::eval(op, args),
         "c17" | "c19" => c17::eval(op, args),
+        "c20" => c20::eval(op, args),
         _ => None,
     }
 }
@@ -45,6 +47,7 @@ pub fn generate(prop: &str, thorough: bool, rng: &mut Rng, em: &mut Emit) {
         "C15" => c15::generate(thorough, rng, em),
         "C16" => c16::generate(thorough, rng, em),
         "C17" | "C19" => c17::generate(prop, thorough, rng, em),
+        "C20" => c20::generate(thorough, rng, em),
         _ => panic!("unknown property {}", prop),
     }
 }
